@@ -267,7 +267,8 @@ def geno_snapshot(ind):
     if isinstance(ind, array.array):
         return ("array", ind.typecode, ind.tolist())
     if isinstance(ind, gp.PrimitiveTree):
-        return ("tree", [n.name for n in ind], [id(n) for n in ind])
+        # node descriptors are shared between a tree and its copies; an ephemeral constant carries its value on the node
+        return ("tree", [n.name for n in ind], [id(n) for n in ind], [repr(getattr(n, "value", None)) for n in ind])
     return ("list", copy.deepcopy(list(ind)))
 
 
@@ -437,9 +438,16 @@ def _oracle(run, which, case, pop, before, pop_ids_before, outcome, varied_ids, 
                 values=tuple(o.fitness.values))
         if o.fitness.valid:
             g, v, fa = geno_snapshot(o), tuple(o.fitness.values), fitness_attrs(o.fitness)
+            wv = tuple(o.fitness.wvalues)
+
+            def same_w(a, b):       # exact and type-exact: 2**60 + 1 is not 2.0**60
+                return len(a) == len(b) and all(x == y and type(x) is type(y) for x, y in zip(a, b))
             if not any(same_geno(s["geno"], g) and s["valid"] and s["values"] == v for s in snaps):
                 bad("offspring %d of %s has a valid fitness but is not a copy of an input individual" % (idx, which),
                     genotype=g[:2], values=v)
+            elif not any(same_geno(s["geno"], g) and s["valid"] and s["values"] == v and same_w(s["wvalues"], wv) for s in snaps):
+                bad("offspring %d of %s has a valid fitness whose weighted values are not exactly those of the input individual "
+                    "it copies" % (idx, which), genotype=g[:2], wvalues=[repr(x) for x in wv])
             elif not any(same_geno(s["geno"], g) and s["valid"] and s["values"] == v and
                          (s["fitness_attrs"] == fa or s["fitness_class"] != type(o.fitness).__name__) for s in snaps):
                 bad("offspring %d of %s has a valid fitness whose other attributes (constraint_violation) are not "
@@ -489,6 +497,8 @@ def get_classes():
         creator.create("C02ArrD", array.array, typecode="d", fitness=creator.C02Fit)
         creator.create("C02Np", numpy.ndarray, fitness=creator.C02Fit2)
         creator.create("C02Tree", gp.PrimitiveTree, fitness=creator.C02Fit)
+        creator.create("C02FitInt", base.Fitness, weights=(-1, 1))          # integer weights: weighted values stay integers
+        creator.create("C02ListInt", list, fitness=creator.C02FitInt)
         creator.create("C02CFit", base.ConstrainedFitness, weights=(-1.0,))
         creator.create("C02CFit2", base.ConstrainedFitness, weights=(1.0, -1.0))
     return creator
@@ -794,6 +804,8 @@ def make_pset():
     pset.addPrimitive(operator.neg, 1)
     pset.addTerminal(1)
     pset.addTerminal(0)
+    import functools
+    pset.addEphemeralConstant("c02eph", functools.partial(_pyrandom.randint, -9, 9))
     return pset
 
 
@@ -835,6 +847,11 @@ def real_operator_runs(run):
     def mk_list(L):
         return creator.C02List([rng.randint(0, 1) for _ in range(L)]), fit2
 
+    def mk_list_int(L):
+        # integer objectives beyond 2**53 under integer weights: pairwise different fitnesses that one double cannot tell apart
+        return (creator.C02ListInt([rng.randint(0, 1) for _ in range(L)]),
+                (lambda: (2 ** 60 + rng.randint(0, 7), -(2 ** 53) - rng.randint(0, 7))))
+
     def mk_arr(L):
         return creator.C02Arr([rng.randint(0, 1) for _ in range(L)]), fit2
 
@@ -863,6 +880,7 @@ def real_operator_runs(run):
         ("list cxTwoPoint/mutFlipBit", mk_list, tools.cxTwoPoint, partial(tools.mutFlipBit, indpb=0.5)),
         ("list cxOnePoint/mutShuffleIndexes", mk_list, tools.cxOnePoint, partial(tools.mutShuffleIndexes, indpb=0.5)),
         ("list cxUniform/mutUniformInt", mk_list, partial(tools.cxUniform, indpb=0.5), partial(tools.mutUniformInt, low=0, up=3, indpb=0.5)),
+        ("list with exact integer fitness beyond 2**53 cxTwoPoint/mutFlipBit", mk_list_int, tools.cxTwoPoint, partial(tools.mutFlipBit, indpb=0.5)),
         ("array('b') cxTwoPoint/mutFlipBit", mk_arr, tools.cxTwoPoint, partial(tools.mutFlipBit, indpb=0.5)),
         ("array('d') cxBlend/mutGaussian", mk_arrd, partial(tools.cxBlend, alpha=0.5), partial(tools.mutGaussian, mu=0, sigma=1, indpb=0.5)),
         ("numpy cxTwoPointCopy/mutFlipBit", mk_np, cx_two_point_copy, partial(tools.mutFlipBit, indpb=0.5)),
@@ -871,6 +889,9 @@ def real_operator_runs(run):
         ("PrimitiveTree cxOnePoint/mutUniform", mk_tree, gp.cxOnePoint, partial(gp.mutUniform, expr=expr_mut, pset=pset)),
         ("PrimitiveTree cxOnePointLeafBiased/mutNodeReplacement", mk_tree, partial(gp.cxOnePointLeafBiased, termpb=0.2),
          partial(gp.mutNodeReplacement, pset=pset)),
+        ("PrimitiveTree cxOnePoint/mutEphemeral(one)", mk_tree, gp.cxOnePoint, partial(gp.mutEphemeral, mode="one")),
+        ("PrimitiveTree cxOnePointLeafBiased/mutEphemeral(all)", mk_tree, partial(gp.cxOnePointLeafBiased, termpb=0.5),
+         partial(gp.mutEphemeral, mode="all")),
         # gp.staticLimit: the wrapped operator edits its argument in place but returns a different object
         # (a copy of the argument as it was) when the limit triggers
         ("PrimitiveTree staticLimit(height<=3) cxOnePoint/mutUniform", mk_tree, lim3(gp.cxOnePoint),
